@@ -173,18 +173,56 @@ def mk_quant(kind, bvars, body, patterns=None):
     return f(bvars, body)
 
 
+_q_cache = {}
+
+
 def _has_quantifier(f):
+    k = f.get_id()
+    if k in _q_cache and _q_cache[k][0].eq(f):
+        return _q_cache[k][1]
     stack = [f]
     seen = set()
+    r = False
     while stack:
         e = stack.pop()
         if e.get_id() in seen:
             continue
         seen.add(e.get_id())
         if z3.is_quantifier(e):
-            return True
+            r = True
+            break
         stack.extend(e.children())
-    return False
+    _q_cache[k] = (f, r)
+    return r
+
+
+_seq_cache = {}
+
+
+def _has_sequence_term(f):
+    k = f.get_id()
+    if k in _seq_cache and _seq_cache[k][0].eq(f):
+        return _seq_cache[k][1]
+    stack = [f]
+    seen = set()
+    r = False
+    while stack:
+        e = stack.pop()
+        if e.get_id() in seen:
+            continue
+        seen.add(e.get_id())
+        if z3.is_quantifier(e):
+            stack.append(e.body())
+            continue
+        try:
+            if e.sort().kind() in (z3.Z3_SEQ_SORT, z3.Z3_RE_SORT):
+                r = True
+                break
+        except Exception:
+            pass
+        stack.extend(e.children())
+    _seq_cache[k] = (f, r)
+    return r
 
 
 # --------------------------------------------------------------------------- run / state
@@ -220,6 +258,8 @@ class State:
         self.next_oid = 1
         self.solver = z3.Solver()
         self.solver.set("timeout", int(os.environ.get("PYVC_FEAS_MS", "800")))
+        self.light = z3.Solver()      # string-free, quantifier-free facts only (State.settled)
+        self.light.set("timeout", 200)
         self.old_heap = None
         self.assumed_notes = []
 
@@ -234,6 +274,37 @@ class State:
         # it can only keep more branches alive) -- quantified axioms made every check time out
         if not _has_quantifier(f):
             self.solver.add(f)
+            if not _has_sequence_term(f):
+                self.light.add(f)
+
+    def settled(self, cond, guards=()):
+        """True / False if the string-free, quantifier-free part of the path condition decides a string-free condition
+        (e.g. presence flags of optional dict entries decided earlier on the path); None otherwise.  Cheap by design."""
+        if _has_sequence_term(cond):
+            return None
+        cs = z3.simplify(cond)
+        if z3.is_true(cs):
+            return True
+        if z3.is_false(cs):
+            return False
+        s = self.light
+        s.push()
+        try:
+            for f in guards:
+                if not _has_quantifier(f) and not _has_sequence_term(f):
+                    s.add(f)
+            s.push()
+            s.add(cond)
+            r1 = s.check()
+            s.pop()
+            if r1 == z3.unsat:
+                return False
+            s.add(z3.Not(cond))
+            if s.check() == z3.unsat:
+                return True
+            return None
+        finally:
+            s.pop()
 
     def feasible(self, cond):
         c = z3.simplify(cond)
@@ -335,6 +406,8 @@ class State:
         if isinstance(t, TObj):
             return self.alloc(Obj(t.cls, {k: self.fresh(ft, "%s.%s" % (prefix, k)) for k, ft in t.fields.items()}))
         if isinstance(t, TOpt):
+            if getattr(self.run, "lazy_opt", False):
+                return VOpt(z3.Bool(run.fresh_name(prefix + ".is_none")), self.fresh(t.t, prefix), prefix)
             if self.choose([z3.BoolVal(True), z3.BoolVal(True)], force_record=True) == 0:
                 return NONE
             return self.fresh(t.t, prefix)
@@ -771,7 +844,29 @@ class Ev:
         m = getattr(self, "e_" + node.__class__.__name__, None)
         if m is None:
             self.unsupported(node, "expression %s" % node.__class__.__name__)
+        v = m(node)
+        if isinstance(v, VOpt):
+            v = self.resolve(v, node)
+        return v
+
+    def expr_keep(self, node):
+        """like expr, but an Optional with a symbolic None flag (VOpt) is passed on unresolved"""
+        m = getattr(self, "e_" + node.__class__.__name__, None)
+        if m is None:
+            self.unsupported(node, "expression %s" % node.__class__.__name__)
         return m(node)
+
+    def resolve(self, v, node=None):
+        """None or the value of a VOpt: decided by the path condition (and the guards of a pure context) where it can
+        be, otherwise by forking on the flag"""
+        while isinstance(v, VOpt):
+            s = self.st.settled(v.n, self.guards if self.pure else ())
+            if s is None:
+                if self.pure and self.guards:
+                    raise Unsupported("optional value %s used under a condition that does not settle whether it is None" % v.name)
+                s = self.st.decide(v.n)
+            v = NONE if s else v.val
+        return v
 
     def e_Constant(self, node):
         v = node.value
@@ -965,6 +1060,12 @@ class Ev:
             return VTuple([self.ite(c, x, y) for x, y in zip(a.items, b.items)])
         if isinstance(a, VNone) and isinstance(b, VNone):
             return a
+        if isinstance(a, (VOpt, VNone)) or isinstance(b, (VOpt, VNone)):
+            # Optional values merge into an Optional with a symbolic None flag
+            an, av = (a.n, a.val) if isinstance(a, VOpt) else ((z3.BoolVal(True), None) if isinstance(a, VNone) else (z3.BoolVal(False), a))
+            bn, bv = (b.n, b.val) if isinstance(b, VOpt) else ((z3.BoolVal(True), None) if isinstance(b, VNone) else (z3.BoolVal(False), b))
+            val = bv if av is None else (av if bv is None else self.ite(c, av, bv))
+            return VOpt(z3.If(c, an, bn), val, "merged")
         if isinstance(a, VBool) and isinstance(b, VInt):
             return VInt(z3.If(c, z3.If(a.t, 1, 0), b.t))
         if isinstance(a, VInt) and isinstance(b, VBool):
@@ -975,24 +1076,32 @@ class Ev:
         c = self.cond(node.test)
         cs = z3.simplify(c)
         if z3.is_true(cs):
-            return self.expr(node.body)
+            return self.expr_keep(node.body)
         if z3.is_false(cs):
-            return self.expr(node.orelse)
+            return self.expr_keep(node.orelse)
+        if self.spec:
+            # a condition the (quantifier-free part of the) path condition already settles: only that branch is
+            # evaluated (the other one may not even be well-typed on this path, e.g. None + str)
+            settled = self.st.settled(c, self.guards)
+            if settled is False:
+                return self.expr_keep(node.orelse)
+            if settled is True:
+                return self.expr_keep(node.body)
         if self.pure:
             self.guards.append(c)
             try:
-                a = self.expr(node.body)
+                a = self.expr_keep(node.body)
             finally:
                 self.guards.pop()
             self.guards.append(z3.Not(c))
             try:
-                b = self.expr(node.orelse)
+                b = self.expr_keep(node.orelse)
             finally:
                 self.guards.pop()
             return self.ite(c, a, b)
         if self.st.decide(c):
-            return self.expr(node.body)
-        return self.expr(node.orelse)
+            return self.expr_keep(node.body)
+        return self.expr_keep(node.orelse)
 
     def e_BinOp(self, node):
         a = self.expr(node.left)
@@ -1035,10 +1144,11 @@ class Ev:
         self.unsupported(node, "binary op %s on %r, %r" % (op.__class__.__name__, a, b))
 
     def e_Compare(self, node):
-        left = self.expr(node.left)
+        keep = all(isinstance(op, (ast.Is, ast.IsNot)) for op in node.ops)
+        left = self.expr_keep(node.left) if keep else self.expr(node.left)
         conj = []
         for op, rnode in zip(node.ops, node.comparators):
-            right = self.expr(rnode)
+            right = self.expr_keep(rnode) if keep else self.expr(rnode)
             conj.append(self.compare(op, left, right, node))
             left = right
         if len(conj) == 1:
@@ -1086,6 +1196,12 @@ class Ev:
         self.unsupported(node, "comparison %s on %r, %r" % (op.__class__.__name__, a, b))
 
     def is_(self, a, b):
+        if isinstance(a, VOpt) and isinstance(b, VNone):
+            return a.n
+        if isinstance(b, VOpt) and isinstance(a, VNone):
+            return b.n
+        if isinstance(a, VOpt) or isinstance(b, VOpt):
+            a, b = self.resolve(a), self.resolve(b)
         if isinstance(a, VNone) or isinstance(b, VNone):
             return z3.BoolVal(isinstance(a, VNone) and isinstance(b, VNone))
         if isinstance(a, VRef) and isinstance(b, VRef):
@@ -1248,7 +1364,7 @@ class Ev:
             self.st.assume(f)
 
     def s_Assign(self, node):
-        v = self.expr(node.value)
+        v = self.expr_keep(node.value) if all(isinstance(t, ast.Name) for t in node.targets) else self.expr(node.value)
         for t in node.targets:
             self._typed_empty(t, v)
             self.assign(t, v)
@@ -1271,6 +1387,8 @@ class Ev:
             cur = self.expr(load)
         else:
             self.unsupported(node, "augassign target")
+        if isinstance(cur, VOpt):
+            cur = self.resolve(cur, node)
         v = self.binop(node.op, cur, self.expr(node.value), node)
         self.assign(tgt, v)
 
@@ -1331,7 +1449,7 @@ class Ev:
             self.block(node.orelse)
 
     def s_Return(self, node):
-        raise _Return(self.expr(node.value) if node.value is not None else NONE)
+        raise _Return(self.expr_keep(node.value) if node.value is not None else NONE)
 
     def s_Break(self, node):
         raise _Break()
